@@ -434,6 +434,71 @@ func genMutation(t *rapid.T) string {
 	return strings.Join(toks, "")
 }
 
+// genBuiltinArity calls a builtin function with a drawn number of arguments drawn from a pool
+// of plausible values (every texture kind, samplers, coordinates, indices, atomics): mostly
+// invalid calls that the front end must refuse with an error, whatever the count and order.
+var arityBuiltins = []string{"textureSample", "textureSampleBias", "textureSampleLevel", "textureSampleGrad", "textureSampleCompare",
+	"textureSampleCompareLevel", "textureSampleBaseClampToEdge", "textureGather", "textureGatherCompare", "textureLoad", "textureStore",
+	"textureDimensions", "textureNumLayers", "textureNumLevels", "textureNumSamples", "atomicAdd", "atomicLoad", "atomicStore",
+	"atomicCompareExchangeWeak", "atomicExchange", "select", "clamp", "mix", "smoothstep", "fma", "dot", "cross", "pack4x8unorm",
+	"unpack2x16float", "extractBits", "insertBits", "arrayLength", "bitcast<u32>", "vec4<f32>", "mat2x2<f32>", "array<u32, 2>", "modf", "frexp", "ldexp",
+	"workgroupUniformLoad", "dpdx", "fwidth", "all", "any", "transpose", "determinant", "refract", "faceForward", "distance", "normalize"}
+
+var arityArgs = []string{"t1", "t2", "t2a", "t3", "tc", "tca", "tms", "td", "tda", "tdc", "tdca", "tdms", "ts", "ts3", "tu", "smp", "smpc",
+	"vec2<f32>(0.5)", "vec3<f32>(0.5)", "vec4<f32>(0.5)", "0.5", "1", "1u", "1i", "vec2<i32>(1)", "vec3<i32>(1)", "vec2<u32>(1u)", "vec2<f32>(0.1, 0.2)",
+	"&at", "&ati", "&buf.arr", "buf.arr[0]", "true", "vec3<bool>(true)", "mat2x2<f32>(1.0, 0.0, 0.0, 1.0)", "&wg", "0"}
+
+func genBuiltinArity(t *rapid.T) string {
+	var b strings.Builder
+	b.WriteString(`@group(0) @binding(0) var t1: texture_1d<f32>;
+@group(0) @binding(1) var t2: texture_2d<f32>;
+@group(0) @binding(2) var t2a: texture_2d_array<f32>;
+@group(0) @binding(3) var t3: texture_3d<f32>;
+@group(0) @binding(4) var tc: texture_cube<f32>;
+@group(0) @binding(5) var tca: texture_cube_array<f32>;
+@group(0) @binding(6) var tms: texture_multisampled_2d<f32>;
+@group(0) @binding(7) var td: texture_depth_2d;
+@group(0) @binding(8) var tda: texture_depth_2d_array;
+@group(0) @binding(9) var tdc: texture_depth_cube;
+@group(0) @binding(10) var tdca: texture_depth_cube_array;
+@group(0) @binding(11) var tdms: texture_depth_multisampled_2d;
+@group(0) @binding(12) var ts: texture_storage_2d<rgba8unorm, write>;
+@group(0) @binding(13) var ts3: texture_storage_3d<r32uint, read_write>;
+@group(0) @binding(14) var tu: texture_2d<u32>;
+@group(0) @binding(15) var smp: sampler;
+@group(0) @binding(16) var smpc: sampler_comparison;
+struct Buf { n: u32, arr: array<u32> }
+@group(1) @binding(0) var<storage, read_write> buf: Buf;
+@group(1) @binding(1) var<storage, read_write> at: atomic<u32>;
+@group(1) @binding(2) var<storage, read_write> ati: atomic<i32>;
+var<workgroup> wg: u32;
+`)
+	stage := rapid.SampledFrom([]string{"@fragment fn main() -> @location(0) vec4<f32> {", "@compute @workgroup_size(1) fn main() {"}).Draw(t, "stage")
+	b.WriteString(stage + "\n")
+	for k := rapid.IntRange(1, 3).Draw(t, "ncalls"); k > 0; k-- {
+		fn := rapid.SampledFrom(arityBuiltins).Draw(t, "fn")
+		n := rapid.IntRange(0, 8).Draw(t, "nargs")
+		args := make([]string, n)
+		for i := range args {
+			args[i] = rapid.SampledFrom(arityArgs).Draw(t, "arg")
+		}
+		call := fn + "(" + strings.Join(args, ", ") + ")"
+		switch rapid.IntRange(0, 2).Draw(t, "use") {
+		case 0:
+			b.WriteString("  let r" + fmt.Sprint(k) + " = " + call + ";\n")
+		case 1:
+			b.WriteString("  _ = " + call + ";\n")
+		default:
+			b.WriteString("  " + call + ";\n")
+		}
+	}
+	if strings.HasPrefix(stage, "@fragment") {
+		b.WriteString("  return vec4<f32>(0.0);\n")
+	}
+	b.WriteString("}\n")
+	return b.String()
+}
+
 // amplifier families: each returns a source built from a size parameter n.
 var amplifiers = []struct {
 	name string
@@ -622,9 +687,12 @@ func TestPropInputs(t *testing.T) {
 		case k <= 2:
 			in.Kind = "token-soup"
 			in.Src = genTokenSoup(t)
-		case k <= 6:
+		case k <= 5:
 			in.Kind = "mutation"
 			in.Src = genMutation(t)
+		case k == 6:
+			in.Kind = "builtin-arity"
+			in.Src = genBuiltinArity(t)
 		default:
 			var name string
 			in.Src, name, ampN = genAmplifier(t)
